@@ -80,6 +80,27 @@ fn main() {
     }
     let _ = &rest;
     let t0 = Instant::now();
+    // memory guard: a workload that makes the process grow without bound (e.g. constraint systems kept
+    // alive by a reference cycle in the code under test) must end as an inconclusive run with a reason,
+    // not as an out-of-memory kill of this or of unrelated processes
+    {
+        let out2 = out.clone();
+        let limit_kib: u64 = std::env::var("VERIF_MEM_LIMIT_GIB").ok().and_then(|v| v.parse().ok()).unwrap_or(20) * 1024 * 1024;
+        std::thread::spawn(move || loop {
+            std::thread::sleep(std::time::Duration::from_millis(500));
+            if let Ok(s) = std::fs::read_to_string("/proc/self/status") {
+                if let Some(l) = s.lines().find(|l| l.starts_with("VmRSS:")) {
+                    let kib: u64 = l.split_whitespace().nth(1).and_then(|x| x.parse().ok()).unwrap_or(0);
+                    if kib > limit_kib {
+                        let v = json!({"harness_error": format!("memory guard: resident set grew to {} GiB (limit {} GiB) - the workload leaks or retains memory; run aborted", kib / 1024 / 1024, limit_kib / 1024 / 1024)});
+                        emit(&out2, &v);
+                        eprintln!("INCONCLUSIVE: memory guard fired");
+                        std::process::exit(2);
+                    }
+                }
+            }
+        });
+    }
     let ctx = sh::Ctx::new(seed, tier == "thorough");
     // Oracle self-test against data that does not come from the code under test.
     let notes = match model::self_test(&ctx.c) {
